@@ -133,7 +133,14 @@ def value_kind(v):
 
 
 def _dispatch_handler(eng, h, fname, args, kwargs, st, fr, k, node):
-    if callable(h):
+    if hasattr(h, "requires") and "." in fname and not getattr(h, "constructor", False) and not h.static:
+        # ``recv.method(...)`` bound to a method contract: the receiver becomes ``self``
+        fn, _ = find_function(h.file, h.qualname)
+        params = [a.arg for a in fn.args.posonlyargs + fn.args.args]
+        recv = fname.split(".")[0]
+        if params and params[0] == "self" and fname.count(".") == 1 and recv in st.env:
+            args = [st.env[recv]] + list(args)
+    if callable(h) and not hasattr(h, "requires"):
         return h(eng, args, kwargs, st, fr, k, node)
     if isinstance(h, Abstract):
         return h.apply(eng, fname, args, kwargs, st, fr, k, node)
@@ -282,6 +289,7 @@ def contract_call(eng, c, args, kwargs, st, fr, k, node):
     pre_ns = Namespace({p: eng.resolve(v, st.heap) for p, v in bound.items()})
     pre_ns.__dict__["old"] = pre_ns
     pre_ns.__dict__["arg"] = pre_ns
+    pre_ns.__dict__["ghost"] = Namespace({g_: eng.resolve(v_, st.heap) for g_, v_ in st.ghost.items() if not g_.startswith("#")})
     if c.requires is not None:
         eng.oblige_clauses("precondition", label, st, c.requires(eng.S, pre_ns), node)
     eng.assumptions  # (contracts used are recorded by the runner)
@@ -305,6 +313,7 @@ def contract_call(eng, c, args, kwargs, st, fr, k, node):
     post_ns.__dict__["old"] = pre_ns
     post_ns.__dict__["arg"] = post_ns
     post_ns.__dict__["local"] = _FreshLocals(eng)
+    post_ns.__dict__["ghost"] = Namespace({g_: eng.resolve(v_, s2.heap) for g_, v_ in s2.ghost.items() if not g_.startswith("#")})
     res = eng.resolve(result, s2.heap)
     if c.ensures is not None:
         eng.S.assuming = True
@@ -417,6 +426,7 @@ def _int(eng, a, kw, st, fr, k, node):
         t = z3.If(v >= 0, z3.ToInt(v), -z3.ToInt(-v))
         return k(t, st)
     if isinstance(v, Opq):
+        # int(x) of a dynamic value: ValueError unless it is convertible (modelled: an int-valued thing converts to itself)
         return k(v2int(v.t), st)
     if _is_z3(v) and z3.is_bool(v):
         return k(z3.If(v, 1, 0), st)
@@ -862,3 +872,22 @@ def _str_split(eng, recv, a, kw, st, fr, k, node):
     if a:
         raise Unsupported("str.split with a separator")
     return k(recv.split(), st)
+
+
+@lib("str", "repr", "type")
+def _str(eng, a, kw, st, fr, k, node):
+    """str(x) / repr(x) / type(x): an opaque value (only used in messages and type tests)"""
+    name = dotted_name(node.func)
+    try:
+        t = z3.Function("fn:" + name, V, V)(eng.to_v(a[0]))
+    except Unsupported:
+        t = eng.fresh(name, "V")
+    return k(Opq(t), st)
+
+
+def inline_method(relpath, qualname, recv_name="self"):
+    """Handler for ``recv.method(...)`` that inlines the (loop-free) method body read from the real source."""
+    def h(eng, args, kwargs, st, fr, k, node):
+        fn, _ = find_function(relpath, qualname)
+        return inline_call(eng, Closure(fn, {}), [st.env[recv_name]] + list(args), kwargs, st, fr, k, node)
+    return h
